@@ -51,6 +51,7 @@ type outReq struct {
 	finalize  func(resp []byte) ([]tokens.Token, error)
 	oracle    func(tok tokens.Token) bool // independent verification under the pinned key
 	iverify   func(tok tokens.Token) bool // issuer-side Verify (types 1, 5)
+	direct    func() ([]byte, error)      // the request OBJECT handed to a co-located issuer (for requests that have no wire form)
 }
 
 type issuerSet struct {
@@ -183,7 +184,16 @@ func (s *issuerSet) create(t, n int, key string, challenge []byte, nonces [][]by
 		keyIDArg = s.oddKeyID(iss.TokenKeyID())
 		var st type1.BasicPrivateTokenRequestState
 		var err error
-		if s.withBlinds { // the sibling entry point with a caller-supplied blind
+		if s.zeroBlind { // the degenerate blind (all zero, or the group order itself): the element is the identity
+			zb := make([]byte, 48)
+			if s.zeroBlindLen != 32 {
+				elliptic.P384().Params().N.FillBytes(zb)
+			}
+			st, err = s.client1().CreateTokenRequestWithBlind(challenge, nonces[0], keyIDArg, iss.TokenKey(), zb)
+			if err == nil {
+				o.direct = func() ([]byte, error) { return iss.Evaluate(st.Request()) }
+			}
+		} else if s.withBlinds { // the sibling entry point with a caller-supplied blind
 			st, err = s.client1().CreateTokenRequestWithBlind(challenge, nonces[0], keyIDArg, iss.TokenKey(), detBlind(s.seed, 1, "wb"))
 		} else {
 			st, err = s.client1().CreateTokenRequest(challenge, nonces[0], keyIDArg, iss.TokenKey())
@@ -534,6 +544,10 @@ func execRun(c *ctx, in ev) ev {
 		}
 		resp, decOK, err := s.evaluate(t, evalKey, evalReq, evalOrigin)
 		e["decode_ok"] = decOK
+		if err != nil && !decOK && r1.direct != nil {
+			// no wire form: an issuer in the same process (or the batch issuer) is handed the object itself
+			resp, err = r1.direct()
+		}
 		if err != nil {
 			e["err"] = "evaluate: " + err.Error()
 			return
@@ -576,6 +590,24 @@ func execRun(c *ctx, in ev) ev {
 			resp = append(resp, randBytes(r, jInt(mut["k"]))...)
 		case "Random":
 			resp = randBytes(r, len(resp))
+		case "SubsetProof":
+			// the issuer's honest answer to the request WITHOUT element i (a proof over the remaining elements), with a
+			// filler spliced into the missing slot: the identity element, or a copy of a neighbour
+			i := jInt(mut["i"]) - 1
+			sub := new(type5.BatchedPrivateTokenRequest)
+			if sub.Unmarshal(append([]byte{}, r1.reqBytes...)) && i < len(sub.BlindedReq) && len(sub.BlindedReq) >= 2 {
+				sub.BlindedReq = append(append([][]byte{}, sub.BlindedReq[:i]...), sub.BlindedReq[i+1:]...)
+				fresh := &type5.BatchedPrivateTokenRequest{TokenKeyID: sub.TokenKeyID, BlindedReq: sub.BlindedReq}
+				if resp2, _, err2 := s.evaluate(t, "k1", fresh.Marshal(), origin); err2 == nil {
+					el2, proof2 := splitT5(resp2)
+					filler := make([]byte, 32)
+					if mut["fill"] == "neighbour" {
+						filler = append([]byte{}, el2[0]...)
+					}
+					el := append(append(append([][]byte{}, el2[:i]...), filler), el2[i:]...)
+					resp = reframeT5(el, proof2)
+				}
+			}
 		case "OtherBatchElem": // an element of another batch of the same key spliced in, proof kept
 			r2 := s.create(t, n, "k1", randBytes(r, chlen), mkNonces(), origin, "c1")
 			resp2, _, err2 := s.evaluate(t, "k1", r2.reqBytes, origin)
@@ -918,6 +950,7 @@ func (x *rlWorld) step(c *ctx, cls map[string]any, r *rand.Rand) ev {
 		case "Unregistered":
 			name := map[string]string{"last-byte": "registered.examplf", "prefix": "registered.exampl", "suffix": "registered.example.", "inner-nul": "registered\x00example",
 				"case": "Registered.example", "empty": "", "long": strings.Repeat("registered.example", 9),
+				"comma-suffix": "registered.example,unregistered.example", "comma-only": "registered.example,", "comma-prefix": "unregistered.example,registered.example",
 				"block-prefix-32": rlLongOrigin[:32], "block-prefix-64": rlLongOrigin[:64], "block-prefix-31": rlLongOrigin[:31], "long-last-byte": rlLongOrigin[:72] + "f",
 				"space-suffix": "registered.example ", "space-prefix": " registered.example", "tab-suffix": "registered.example\t", "upper": "REGISTERED.EXAMPLE",
 				"nul-suffix": "registered.example\x00.attacker.example", "nul-suffix-short": "registered.example\x00a", "nul-prefix": "\x00registered.example"}[cls["variant"].(string)]
@@ -2010,6 +2043,8 @@ func genIssuance(c *ctx, emit func(ev)) {
 					}
 				}
 				if t == 5 {
+					run(1, 1, 16, 0, ev{"kind": "ZeroBlind"})
+					run(1, 1, 16, 0, ev{"kind": "ZeroBlind", "len": 48})
 					run(5, 1, 16, 0, ev{"kind": "ZeroBlind"})
 					run(5, 3, 16, 0, ev{"kind": "ZeroBlind"})
 					for _, bl := range []int{0, 31, 33} { // malformed first blind
@@ -2040,6 +2075,10 @@ func genIssuance(c *ctx, emit func(ev)) {
 			if n >= 2 {
 				run(5, n, 16, 0, ev{"kind": "Swap"})
 				run(5, n, 16, 0, ev{"kind": "OtherBatchElem"})
+				for i := 1; i <= n; i++ {
+					run(5, n, 16, 0, ev{"kind": "SubsetProof", "i": i, "fill": "identity"})
+					run(5, n, 16, 0, ev{"kind": "SubsetProof", "i": i, "fill": "neighbour"})
+				}
 			}
 			if n >= 2 && n <= 4 || (n == 5 && c.thorough()) {
 				for _, p := range permutations(n) {
@@ -2127,7 +2166,7 @@ func genIssuance(c *ctx, emit func(ev)) {
 				rl(ev{"kind": "BadInner", "k": k})
 			}
 			for _, v := range []string{"last-byte", "prefix", "suffix", "inner-nul", "case", "empty", "long", "nul-suffix", "nul-suffix-short", "nul-prefix",
-				"space-suffix", "space-prefix", "tab-suffix", "upper", "block-prefix-32", "block-prefix-64", "block-prefix-31", "long-last-byte"} {
+				"space-suffix", "space-prefix", "tab-suffix", "upper", "comma-suffix", "comma-only", "comma-prefix", "block-prefix-32", "block-prefix-64", "block-prefix-31", "long-last-byte"} {
 				rl(ev{"kind": "Unregistered", "variant": v})
 			}
 		}
@@ -2187,7 +2226,9 @@ func genIssuance(c *ctx, emit func(ev)) {
 				{"n1+n2+n3", "b1+b2+one"}, {"n3+n1", "one+b1"}, {"n1+n2", "b1+b1"}, {"n1+n2", "b1+b2"}, {"n1+n2", "lead0+b2"}, {"n1+n2", "b3+b4"},
 				{"many511", "mb"}, {"many512", "mb"}, {"many512", "mb"}, {"many512", "mc"},
 				{"n1", "zero"}, {"n1+n2", "b1+zero"}, {"n1+n2", "zero+b2"}, {"n1", "zero-order"}, {"n1", "zero-top"}, {"n1", "zero-order-top"},
-				{"n1+n2", "b1+zero-order"}, {"n1+n2", "zero-top+b2"}, {"n1", "short"}, {"n1+n2", "short+b2"}, {"n1+n2+n3", "b1+short+b2"}} {
+				{"n1+n2", "b1+zero-order"}, {"n1+n2", "zero-top+b2"},
+				// batches in which a nonce is repeated, each row twice: the request is a function of the arguments (order included)
+				{"n1+n1+n2", "b1+b1+b2"}, {"n1+n1+n2", "b1+b1+b2"}, {"n1+n2+n1+n3", "b1+b2+b3+b4"}, {"n1+n2+n1+n3", "b1+b2+b3+b4"}, {"n2+n1+n3+n1", "b2+b1+b4+b3"}, {"n1", "short"}, {"n1+n2", "short+b2"}, {"n1+n2+n3", "b1+short+b2"}} {
 				rows = append(rows, ev{"t": 5, "key": key, "nc": comp[0], "blind": comp[1], "salt": "s1"})
 			}
 		}
